@@ -215,6 +215,33 @@ func c16Run(it c16Item) error {
 				return fmt.Errorf("preset %s yields %q with probability %v, want %v", name, v, p, each)
 			}
 		}
+		// inside a recipe that also sets SeparatorChar the function still decides
+		{
+			wl, _ := spg.NewWordList([]string{"a", "b"})
+			r := spg.NewWLRecipe(3, wl)
+			r.SeparatorChar = "#"
+			r.SeparatorFunc = f
+			ok := map[string]bool{}
+			for _, v := range want {
+				ok[v] = true
+			}
+			for i := 0; i < 6; i++ {
+				ii := i
+				o := callForced(nil, func(k int, n uint32) uint32 { return uint32(k*3+ii) % n }, 7, r.Generate)
+				if o.Pw == nil {
+					return fmt.Errorf("recipe with preset %s did not generate: %v %v", name, o.Err, o.Panic)
+				}
+				seps := o.Pw.Tokens().Separators()
+				if name == "SFNone" && len(seps) != 0 {
+					return fmt.Errorf("preset SFNone in a recipe that also sets SeparatorChar produced separators %q", seps)
+				}
+				for _, sv := range seps {
+					if !ok[sv] {
+						return fmt.Errorf("preset %s in a recipe that also sets SeparatorChar produced the separator %q", name, sv)
+					}
+				}
+			}
+		}
 		wantEnt := math.Log2(float64(len(want)))
 		for b := range ents {
 			if !oracle.Close32(math.Float32frombits(b), wantEnt, 2, 0) {
